@@ -179,7 +179,11 @@ func packagesMentioning(repoDir, needle string) []string {
 	return out
 }
 
+// currentProp: the property whose check is running (property-scoped clauses).
+var currentProp string
+
 func verify(repoDir, verifDir, prop, tier, fnFilter, dump string, overlay map[string][]byte) (*RunResult, error) {
+	currentProp = prop
 	t0 := time.Now()
 	rels, err := selectPackages(repoDir, verifDir, prop)
 	if err != nil {
